@@ -970,4 +970,8 @@ func run(c *vm.Ctx) {
 		hostileServer(c, lr)
 		hostileClient(c, lr)
 	}
+	mr := c.Rand("managed")
+	for i := 0; i < c.Scale(3000, 80000); i++ {
+		managedBot(c, mr)
+	}
 }
